@@ -18,6 +18,13 @@ const PROGS: [&str; 5] = [
     "stream E = SensorReading .where(x > 100)",
 ];
 
+/// Reload requests the server must refuse: a text that does not parse, and one that parses but that the engine
+/// rejects when it applies it (assignment to an immutable variable). A refused reload changes nothing, now or after a restart.
+const BAD_PROGS: [&str; 2] = [
+    "stream = = broken (",
+    "let limit: int = 10\nlimit := 20\nstream F = Events .where(y > limit)",
+];
+
 #[derive(Clone, Debug, PartialEq)]
 struct MP {
     id: String,
@@ -406,9 +413,10 @@ impl<'a> Sim<'a> {
             Op::Reload(ts, ps, prog) => {
                 let Some(t) = self.model.get(&ts).cloned() else { return true };
                 let Some(p) = t.pipes.get(&ps).cloned() else { return true };
-                let src = PROGS[prog % PROGS.len()].to_string();
+                let bad = prog >= PROGS.len();
+                let src = if bad { BAD_PROGS[if prog == PROGS.len() { 0 } else { 1 }].to_string() } else { PROGS[prog].to_string() };
                 let path = format!("/api/v1/pipelines/{}/reload", p.id);
-                let what = format!("reload pipeline '{}' by {} -> prog{}", p.name, t.name, prog % PROGS.len());
+                let what = if bad { format!("reload pipeline '{}' by {} with a program the server must refuse ({})", p.name, t.name, if prog == PROGS.len() { "does not parse" } else { "parses, rejected by the engine" }) } else { format!("reload pipeline '{}' by {} -> prog{}", p.name, t.name, prog) };
                 let body = json!({"source": src});
                 let r = self.isolation_guard(Some(&t.id), &what, |s| s.call("POST", &path, Some(("x-api-key", &t.key)), Some(body)));
                 self.flush_log();
@@ -422,6 +430,8 @@ impl<'a> Sim<'a> {
                         if resp.status / 100 == 2 {
                             self.acked += 1;
                             self.model.get_mut(&ts).unwrap().pipes.get_mut(&ps).unwrap().source = src;
+                        } else if bad {
+                            self.rep.probe("reload-refused-by-the-server");
                         } else {
                             self.v22("valid-management-request-refused", "reload", format!("{} -> {} {}", what, resp.status, resp.body));
                         }
@@ -582,7 +592,7 @@ fn gen_ops(prop: &str, tape: &mut Tape) -> Vec<Op> {
             let o = match tape.draw(if i < 2 { 3 } else { 12 }) {
                 0 | 1 => Op::CreateTenant(tape.draw(2) as usize),
                 2 | 3 | 4 | 5 => Op::Deploy(tape.draw(2) as usize, tape.draw(3) as usize, tape.draw(5) as usize),
-                6 | 7 => Op::Reload(tape.draw(2) as usize, tape.draw(3) as usize, tape.draw(5) as usize),
+                6 | 7 => Op::Reload(tape.draw(2) as usize, tape.draw(3) as usize, tape.draw(9) as usize),
                 8 | 9 => Op::DeletePipe(tape.draw(2) as usize, tape.draw(3) as usize),
                 10 => Op::DeleteTenant(tape.draw(2) as usize),
                 _ => Op::Req { kind: 0, caller: tape.draw(2) as usize, victim: 0, pslot: 0 },
@@ -605,7 +615,7 @@ fn gen_ops(prop: &str, tape: &mut Tape) -> Vec<Op> {
                 0 => Op::CreateTenant(tape.draw(nt as u64) as usize),
                 1 | 2 => Op::Deploy(tape.draw(nt as u64) as usize, tape.draw(2) as usize, tape.draw(5) as usize),
                 3 => Op::DeletePipe(tape.draw(nt as u64) as usize, tape.draw(2) as usize),
-                4 => Op::Reload(tape.draw(nt as u64) as usize, tape.draw(2) as usize, tape.draw(5) as usize),
+                4 => Op::Reload(tape.draw(nt as u64) as usize, tape.draw(2) as usize, tape.draw(9) as usize),
                 5 => Op::DeleteTenant(tape.draw(nt as u64) as usize),
                 6 => Op::BadKey { kind: tape.draw(11) as usize, victim: tape.draw(nt as u64) as usize, pslot: tape.draw(2) as usize },
                 _ => Op::Req { kind: tape.draw(11) as usize, caller: tape.draw(nt as u64) as usize, victim: tape.draw(nt as u64) as usize, pslot: tape.draw(2) as usize },
